@@ -175,7 +175,8 @@ var gateOf = map[string]string{
 	"DelLock": "lock.SetNX", "DelGet2": "rec.Get", "DelIdxGet": "idx.Get", "DelUnlock": "lock.Delete",
 	"RbLock": "lock.SetNX", "RbGet": "rec.Get", "RbIdxGet": "idx.Get", "RbList": "cl.RemoveFromList", "RbUnlock": "lock.Delete",
 	"L_idx": "idx.Get", "L_rec": "rec.Get",
-	"DelCUnlock": "lock.Delete", "L_clean": "idx.Delete", // deviation models only
+	"ListGet": "cl.GetList", "ListRec": "rec.Get", "ListPrune": "cl.RemoveFromList",
+	"DelCUnlock": "lock.Delete", "L_clean": "idx.Delete", "ListHeal": "idx.SetNX", // deviation models only
 }
 
 // ---- environment doubles of the proxy ----------------------------------------------------------
@@ -240,6 +241,7 @@ type node struct {
 	repo *repos.HTTPDomainMappingRepository
 	ch   *command.HTTPDomainCreateHandler
 	dh   *command.HTTPDomainDeleteHandler
+	ad   *server.HTTPDomainRepositoryAdapter
 }
 
 type rig struct {
@@ -284,7 +286,7 @@ func newRig(tier string, free bool) *rig {
 		g := &gstore{FullStorage: in, name: fmt.Sprintf("n%d", i), s: r.s, fault: faultFn}
 		repo := repos.NewHTTPDomainMappingRepository(repos.NewRepository(g), []string{baseDomain})
 		ad := server.NewHTTPDomainRepositoryAdapter(repo)
-		return &node{st: g, repo: repo, ch: command.NewHTTPDomainCreateHandler(ad, ad), dh: command.NewHTTPDomainDeleteHandler(ad)}
+		return &node{st: g, repo: repo, ch: command.NewHTTPDomainCreateHandler(ad, ad), dh: command.NewHTTPDomainDeleteHandler(ad), ad: ad}
 	}
 	if tier == "store" {
 		base := doubles.NewStore("base", nil)
@@ -393,6 +395,16 @@ func (r *rig) doDelete(n *node, api string, c int64, id string) res {
 	}
 	err := n.repo.DeleteMapping(context.Background(), id, c)
 	return res{ok: err == nil, err: errStr(err)}
+}
+
+// doList lists the client's mappings (GetMappingsByClientID; through the server adapter for the command path)
+func (r *rig) doList(n *node, api string, c int64) res {
+	if api == "cmd" {
+		l, err := n.ad.ListHTTPDomainMappings(c)
+		return res{ok: err == nil, err: errStr(err), code: len(l)}
+	}
+	l, err := n.repo.GetMappingsByClientID(context.Background(), c)
+	return res{ok: err == nil, err: errStr(err), code: len(l)}
 }
 
 // peek reads the record as the caller of UpdateMapping would hold it (ungated, before the call)
@@ -558,10 +570,11 @@ func spellingFor(sp, full string) spelling {
 }
 
 type behaviour struct {
-	Kind   string   `json:"kind"`          // sched | free | spell
-	Tier   string   `json:"tier"`          // store | hybrid
-	API    string   `json:"api"`           // repo | cmd (free / spell behaviours)
-	Cmd    []string `json:"cmd,omitempty"` // scheduled behaviours: processes whose calls go through the command handlers
+	Kind   string   `json:"kind"`           // sched | free | spell
+	Tier   string   `json:"tier"`           // store | hybrid
+	API    string   `json:"api"`            // repo | cmd (free / spell behaviours)
+	Cmd    []string `json:"cmd,omitempty"`  // scheduled behaviours: processes whose calls go through the command handlers
+	Late   bool     `json:"late,omitempty"` // storage operations the code has beyond the model's end of a call run at the very end, not at once
 	Pre    bool     `json:"pre"`
 	Legacy bool     `json:"legacy"` // generated from the model of the unrepaired DeleteMapping
 	Steps  []string `json:"steps,omitempty"`
@@ -721,6 +734,17 @@ func drive(env *fw.Env, b fw.Behaviour) *fw.Trace {
 				r.log(fw.Event{"ev": "LegDelete", "lid": st.ID, "here": st.St == "here"})
 			}
 		case st.A == "Call":
+			if prev := cur[st.P]; prev != nil && !prev.done {
+				// the previous call of this process is still in flight (code beyond the model's end of the call): it ends first
+				for k := 0; k < 60 && !prev.done; k++ {
+					if state, _ := r.s.State(prev.name); state != sched.Parked {
+						break
+					}
+					if stepCall(r, prev) == sched.Done {
+						r.logRet(prev)
+					}
+				}
+			}
 			nCalls[st.P]++
 			a := &active{name: fmt.Sprintf("%s.%d", st.P, nCalls[st.P]), op: st.Op}
 			n := r.nodes[nodeOfProc[st.P]]
@@ -745,6 +769,10 @@ func drive(env *fw.Env, b fw.Behaviour) *fw.Trace {
 				stt := st.St
 				r.log(fw.Event{"ev": "Call", "p": a.name, "op": "Update", "id": id, "st": stt})
 				fn = func() any { return r.doUpdate(n, m, stt) }
+			case "List":
+				c := cidOf[st.C]
+				r.log(fw.Event{"ev": "Call", "p": a.name, "op": "List", "c": c})
+				fn = func() any { return r.doList(n, apiOf(st.P), c) }
 			case "Lookup":
 				sp := spellingFor(st.Sp, fullOf(st.N))
 				if st.Sp == "plain" && i%2 == 1 {
@@ -791,10 +819,12 @@ func drive(env *fw.Env, b fw.Behaviour) *fw.Trace {
 			}
 			ns := stepCall(r, a)
 			if st.R != "-" && ns == sched.Parked {
-				// the model's call returns here, the code has further storage operations (e.g. a lookup that
-				// writes, a clean-up on a refused path): they are extra steps of this call, run now
+				// the model's call returns here, the code has further storage operations (e.g. a lookup or a listing
+				// that writes, a clean-up on a refused path): they are extra steps of this call, run at once - or,
+				// in "late" behaviours, left pending while the schedule goes on (they run before the process's next
+				// call or when the schedule is over), so that both placements of the extra operations are explored
 				note("step %d: %s continues after %s (at %v), model expects it to return %s", i, a.name, st.A, atClass(r, a.name), st.R)
-				for k := 0; k < 40 && ns == sched.Parked; k++ {
+				for k := 0; !beh.Late && k < 40 && ns == sched.Parked; k++ {
 					ns = stepCall(r, a)
 				}
 			}
@@ -806,6 +836,8 @@ func drive(env *fw.Env, b fw.Behaviour) *fw.Trace {
 				note("step %d: %s blocked after %s", i, a.name, st.A)
 			case st.R == "-" && ns != sched.Parked:
 				note("step %d: %s returned after %s, model expects it to continue", i, a.name, st.A)
+			case st.R != "-" && ns == sched.Parked:
+				// late extras: the call is still in flight
 			case st.R != "-" && ns == sched.Done:
 				out, _ := r.s.Result(a.name).(res)
 				if !expectOK(a, out, st.R) {
@@ -846,11 +878,32 @@ func drive(env *fw.Env, b fw.Behaviour) *fw.Trace {
 			r.lookupEvent("final", spelling{"port", fullOf(n) + ":8080", fullOf(n)})
 		}
 	}
+	for _, n := range []string{"n1", "n2"} {
+		if n == "n1" || r.usesN2(steps) {
+			r.claimProbe(n)
+		}
+	}
 	r.log(r.finalEvent())
 	if diverged != "" {
 		return &fw.Trace{Status: fw.Diverged, Note: diverged, Events: r.events}
 	}
 	return &fw.Trace{Status: fw.Realised, Events: r.events}
+}
+
+// claimProbe: at quiescence a fresh client claims the name and, if that is acknowledged, gives it back - a name
+// nobody owns any more must be claimable again (judged by the Claimable clause: a refusal needs a possible owner)
+func (r *rig) claimProbe(n string) {
+	r.tpSeq++
+	tp := 8000 + r.tpSeq
+	p := "claim-" + n
+	r.log(fw.Event{"ev": "Call", "p": p, "op": "Create", "c": int64(109), "name": fullOf(n), "raw": fullOf(n), "tp": tp})
+	out := r.doCreate(r.nodes[0], "repo", 109, subOf[n], tp)
+	r.log(fw.Event{"ev": "Ret", "p": p, "op": "Create", "ok": out.ok, "id": out.id, "err": out.err, "faulted": false})
+	if out.ok {
+		r.log(fw.Event{"ev": "Call", "p": p + "-undo", "op": "Delete", "c": int64(109), "id": out.id})
+		d := r.doDelete(r.nodes[0], "repo", 109, out.id)
+		r.log(fw.Event{"ev": "Ret", "p": p + "-undo", "op": "Delete", "ok": d.ok, "err": d.err})
+	}
 }
 
 // stepCall releases the call from its gate; a pending fault of the call is armed only while it runs (the
@@ -1049,6 +1102,7 @@ func driveFree(env *fw.Env, beh behaviour) *fw.Trace {
 	}
 	for _, n := range []string{"n1", "n2"} {
 		r.lookupEvent("final", spelling{"plain", fullOf(n), fullOf(n)})
+		r.claimProbe(n)
 	}
 	r.log(r.finalEvent())
 	return &fw.Trace{Status: fw.Realised, Events: r.events}
@@ -1127,6 +1181,8 @@ type mcfg struct {
 	nofold                          bool
 	onlyDel, onlyCre, deviate       string // "" = {}
 	delFaults                       bool
+	creFaults                       bool
+	onlyList, handler               string // handler: "" = {"p2"}
 	lp                              string // lookup processes ("" = one)
 	emit                            bool
 	invs                            string
@@ -1139,6 +1195,13 @@ func spellOf(c mcfg) string {
 		return `{"plain"}`
 	}
 	return c.spell
+}
+
+func handlerOf(c mcfg) string {
+	if c.handler == "" {
+		return `{"p2"}`
+	}
+	return c.handler
 }
 
 func setOf(s string) string {
@@ -1162,14 +1225,14 @@ func tf(b bool) string {
 	return "FALSE"
 }
 
-const allInvs = "OneOwner RouteOK OwnerOnly LockHeld OnlyHolderUnlocks LookupPure RegisterAtomic Consistent Claimable NoIndexTheft"
-const excusedInvs = "OneOwnerX RouteOKX OwnerOnly LockHeld OnlyHolderUnlocks LookupPure RegisterAtomic Consistent Claimable NoIndexTheft"
+const allInvs = "OneOwner RouteOK OwnerOnly LockHeld OnlyHolderUnlocks LookupPure ListPure RegisterAtomic Consistent Claimable NoIndexTheft"
+const excusedInvs = "OneOwnerX RouteOKX OwnerOnly LockHeld OnlyHolderUnlocks LookupPure ListPure RegisterAtomic Consistent Claimable NoIndexTheft"
 
 func job(name string, c mcfg) fw.TLCJob {
 	return fw.TLCJob{Name: name, Module: "Domain", Cfg: "Domain.cfg", Workers: 8, Timeout: 14 * time.Minute,
 		Consts: map[string]string{"P1": c.p1, "P2": c.p2, "LP": lpOf(c), "NAMES": c.names, "MAXOPS": strconv.Itoa(c.maxOps),
 			"MAXLOOK": strconv.Itoa(c.maxLook), "KINDS": c.kinds, "PRE": tf(c.pre), "FAULTS": strconv.Itoa(c.faults), "GUESS": tf(c.guess),
-			"HANDLER": `{"p2"}`, "SEQ": tf(c.serial), "MAXLEG": strconv.Itoa(c.maxLeg), "FIX": tf(c.fix), "EMIT": tf(c.emit), "INVS": c.invs,
+			"HANDLER": handlerOf(c), "ONLYLIST": setOf(c.onlyList), "CREFAULTS": tf(c.creFaults), "SEQ": tf(c.serial), "MAXLEG": strconv.Itoa(c.maxLeg), "FIX": tf(c.fix), "EMIT": tf(c.emit), "INVS": c.invs,
 			"SPELL": spellOf(c), "FOLD": tf(!c.nofold), "ONLYDEL": setOf(c.onlyDel), "ONLYCRE": setOf(c.onlyCre), "DEVIATE": setOf(c.deviate), "DELFAULTS": tf(c.delFaults)}}
 }
 
@@ -1203,11 +1266,24 @@ func del3(emit bool, looks int) mcfg {
 		onlyDel: `{"p1", "p3", "p4"}`, onlyCre: `{"p2"}`}
 }
 
-// delFault: sequential histories of the owner deleting (twice: the retry) and another client claiming, with any one
-// storage operation of DeleteMapping failing once
-func delFault(emit bool) mcfg {
-	return mcfg{p1: `{"p1"}`, p2: `{"p2"}`, names: `{"n1"}`, kinds: cd, maxOps: 2, maxLook: 2, faults: 1, pre: true, serial: true, fix: true, emit: emit,
-		onlyDel: `{"p1"}`, onlyCre: `{"p2"}`, delFaults: true}
+// opFault: sequential histories of both clients creating / deleting (incl. the owner's retry and the other client's
+// re-claim) in which any one storage operation of a create or a delete fails once; p1 = client c1 through the command
+// handlers, p2 = client c2 through the repository (so that a contender reaches the index SetNX of an owned name)
+func opFault(emit bool) mcfg {
+	return mcfg{p1: `{"p1"}`, p2: `{"p2"}`, names: `{"n1"}`, kinds: cd, maxOps: 2, maxLook: 1, faults: 1, pre: true, serial: true, fix: true, emit: emit,
+		delFaults: true, creFaults: true, handler: `{"p1"}`}
+}
+
+// listing: the owner lists its mappings while it deletes one (another call of the same client) and another client claims
+func listing(emit bool) mcfg {
+	return mcfg{p1: `{"p1", "p3"}`, p2: `{"p2"}`, names: `{"n1"}`, kinds: `{"Create", "Delete", "List"}`, maxOps: 1, maxLook: 1, pre: true, fix: true, emit: emit,
+		onlyList: `{"p1"}`, onlyDel: `{"p3"}`, onlyCre: `{"p2"}`}
+}
+
+// shadow: sequential histories of one repository owner (created, made inactive / expired) and one legacy mapping of
+// the same name, with lookups: the three lookup sources against each other
+func shadow(emit bool) mcfg {
+	return mcfg{p1: `{"p1"}`, p2: `{}`, names: `{"n1"}`, kinds: `{"Create", "Update"}`, maxOps: 2, maxLook: 1, maxLeg: 1, serial: true, fix: true, emit: emit, handler: `{}`}
 }
 
 // deviating: schedules of code that has one of the named deviations the present code does not have
@@ -1245,20 +1321,26 @@ func main() {
 			// "legacy:" jobs follow the model of the code before the DeleteMapping repair (Fix = FALSE): on the
 			// repaired code they stop being realisable at the first delete, on the unrepaired code they are the
 			// ones that realise
+			looks2f := 0
+			if env.Tier == "thorough" {
+				looks2f = 1
+			}
 			jobs := []fw.TLCJob{
 				job("gen:conc3", with(conc3(true, true, 1, 1, 0), allInvs)),
-				job("gen:conc2f", with(conc2(true, true, `{"n1"}`, 1, 1), allInvs)),
-				job("gen:seq", with(seqCfg(true, true, cdu, 2, 2, 0, 1), excusedInvs)),
-				job("gen:spell", with(spellCfg(true, true, 2, 2), allInvs)),
-				job("gen:del3", with(del3(true, 1), allInvs)),
-				job("gen:delf", with(delFault(true), allInvs)),
+				job("gen:seq", with(seqCfg(true, true, cdu, 2, 1+looks2f, 0, 1), excusedInvs)), // two lookups (stale registry cache) in thorough; quick has gen:shadow + extra
+				job("gen:del3", with(del3(true, looks2f), allInvs)),
+				job("gen:opf", with(opFault(true), allInvs)),
+				job("gen:list", with(listing(true), allInvs)),
+				job("gen:shadow", with(shadow(true), excusedInvs)),
 				job("legacy:dev:conflict-unlock", deviating(del3(true, 0), `{"conflictUnlock"}`)),
-				job("legacy:dev:lazy-clean", deviating(claim2(true, 1), `{"lazyClean"}`)),
-				job("legacy:conc3", unrepaired(conc3(false, true, 1, 1, 0), "")),
-				job("legacy:seq", unrepaired(seqCfg(false, true, cd, 2, 1, 1, 0), `{"plain", "upper"}`)),
 			}
 			if env.Tier == "thorough" {
 				jobs = append(jobs,
+					job("gen:conc2f", with(conc2(true, true, `{"n1"}`, 1, 1), allInvs)),
+					job("legacy:conc3", unrepaired(conc3(false, true, 1, 1, 0), "")),
+					job("gen:spell", with(spellCfg(true, true, 2, 2), allInvs)),
+					job("legacy:dev:lazy-clean", deviating(claim2(true, 1), `{"lazyClean"}`)),
+					job("legacy:seq", unrepaired(seqCfg(false, true, cd, 2, 1, 1, 0), `{"plain", "upper"}`)),
 					job("gen:conc3f", with(conc3(true, true, 1, 1, 1), allInvs)),
 					job("gen:conc2:2names", with(conc2(true, true, `{"n1", "n2"}`, 1, 0), allInvs)),
 					job("gen:seqleg", with(seqCfg(true, true, cd, 1, 3, 0, 2), excusedInvs)),
@@ -1272,11 +1354,18 @@ func main() {
 			if err := json.Unmarshal(raw, &steps); err != nil {
 				panic(err)
 			}
-			pre := !strings.HasSuffix(src, ":seq") && !strings.HasPrefix(src, "gen:seq") && !strings.Contains(src, ":spell") && !strings.Contains(src, "lazy-clean")
+			pre := !strings.HasSuffix(src, ":seq") && !strings.HasPrefix(src, "gen:seq") && !strings.Contains(src, ":spell") && !strings.Contains(src, "lazy-clean") && src != "gen:shadow"
 			legacy := strings.HasPrefix(src, "legacy:")
 			var out []json.RawMessage
-			for _, tier := range []string{"store", "hybrid"} {
-				out = append(out, fw.MustJSON(behaviour{Kind: "sched", Tier: tier, Cmd: []string{"p2"}, Pre: pre, Legacy: legacy, Steps: steps}))
+			cmd := []string{"p2"}
+			switch src {
+			case "gen:opf":
+				cmd = []string{"p1"}
+			case "gen:shadow":
+				cmd = nil
+			}
+			for ti, tier := range []string{"store", "hybrid"} {
+				out = append(out, fw.MustJSON(behaviour{Kind: "sched", Tier: tier, Cmd: cmd, Late: (len(steps)+ti)%2 == 1, Pre: pre, Legacy: legacy, Steps: steps}))
 			}
 			return out
 		},
@@ -1305,10 +1394,10 @@ func main() {
 				if strings.HasPrefix(src, "legacy:") {
 					return 400
 				}
-				if src == "gen:delf" {
-					return 1200
+				if src == "gen:opf" {
+					return 1500
 				}
-				return 700
+				return 600
 			}
 			if strings.HasPrefix(src, "legacy:") {
 				return 3000
